@@ -1,5 +1,6 @@
 """C11 — generated enums mirror their wowm definition for every integer (table agreement)."""
 from .. import hir as H
+from ..intconv import int_range  # noqa
 from ..intconv import INT_TYPES, ev, lossless
 from ..world import G, Pairing, enumerator_rust_name, split_gpath, gpath
 
@@ -124,6 +125,18 @@ def check_enum(ctx, g, pair, seen):
         else:
             bad = "body is not `match value {…}`"
         if bad:
+            # another shape (e.g. `Ok(match value { .. _ => return Err(..) })`, a lookup table): decided by interpretation
+            from ..minieval import Unsupported, Panic
+            try:
+                why = from_int_semantic(F, crate, fi, expected, base, o.name)
+                if why:
+                    ctx.violate("enum.tables", f"{key0}|from_int|table", f"enum {o.name}: {why} (wowm {o.file}:{o.line})", fi["file"], fi["line"])
+                bad = None
+            except (Unsupported, Panic) as e_:
+                bad = f"{bad}; not interpretable either ({e_})"
+        if bad is None and H.tag(body) != "match":
+            pass
+        elif bad:
             ctx.violate("enum.tables", f"{key0}|from_int|shape", f"enum {o.name}: from_int: {bad}", fi["file"], fi["line"])
         else:
             exp_table = {val: vpath[name] for name, val in expected}
@@ -161,7 +174,19 @@ def check_enum(ctx, g, pair, seen):
                 table[pat[1]] = v
         else:
             bad = "body is not `match self {…}`"
-        if bad:
+        sem_done = False
+        if bad and ai["output"] == base:
+            from ..minieval import Unsupported, Panic
+            try:
+                why = as_int_semantic(F, crate, ai, lpath, expected)
+                if why:
+                    ctx.violate("enum.tables", f"{key0}|as_int|table", f"enum {o.name}: {why}", ai["file"], ai["line"])
+                bad, sem_done = None, True
+            except (Unsupported, Panic) as e_:
+                bad = f"{bad}; not interpretable either ({e_})"
+        if sem_done:
+            pass
+        elif bad:
             ctx.violate("enum.tables", f"{key0}|as_int|shape", f"enum {o.name}: as_int: {bad}", ai["file"], ai["line"])
         else:
             exp_table = {vpath[name]: val for name, val in expected}
@@ -181,11 +206,64 @@ def check_enum(ctx, g, pair, seen):
             if got != exp:
                 ctx.violate("enum.tables", f"{key0}|variants|list", f"enum {o.name}: variants() is not each enumerator once in declaration order", va["file"], va["line"])
         else:
-            ctx.violate("enum.tables", f"{key0}|variants|shape", f"enum {o.name}: variants(): unrecognised body {H.short(body)}", va["file"], va["line"])
+            from ..minieval import Unsupported, Panic
+            try:
+                why = variants_semantic(F, crate, va, exp_names)
+                if why:
+                    ctx.violate("enum.tables", f"{key0}|variants|list", f"enum {o.name}: {why}", va["file"], va["line"])
+            except (Unsupported, Panic) as e_:
+                ctx.violate("enum.tables", f"{key0}|variants|shape", f"enum {o.name}: variants(): unrecognised body {H.short(body)} ({e_})", va["file"], va["line"])
     # D3: TryFrom<S>
     n_inst += check_tryfrom(ctx, F, crate, lpath, o.name, base, "enum.tryfrom", key0, is_flag=False)
     ctx.sample({"enum": o.name, "rust": rust, "wowm": f"{o.file}:{o.line}", "pairs": len(expected), "base": base})
     return n_inst
+
+
+def _sem(F, crate):
+    from ..minieval import Mini
+    return Mini({crate: F}, crate)
+
+
+def _vname(v):
+    return v[1].split("::")[-1] if isinstance(v, tuple) and len(v) >= 2 and v[0] == "variant" else None
+
+
+def from_int_semantic(F, crate, fi, expected, base, ename):
+    """from_int interpreted on every declared value, its neighbours and the limits of the base type: Ok(the enumerator of that value) for declared
+    values, Err(EnumError { name, value }) otherwise. -> None (holds) / message; raises Unsupported / Panic when not interpretable"""
+    lo, hi = int_range(base)
+    declared = {val: name for name, val in expected}
+    cands = set(declared) | {lo, hi, 0}
+    for v in list(declared):
+        cands |= {v - 1, v + 1}
+    for v in sorted(c for c in cands if lo <= c <= hi):
+        res = _sem(F, crate).call_fn(fi["path"], [v])
+        if v in declared:
+            if not (isinstance(res, tuple) and res[0] == "Ok" and _vname(res[1]) == declared[v]):
+                return f"from_int({v}) = {str(res)[:80]}, the wowm enumerator with that value is {declared[v]}"
+        else:
+            e = res[1] if isinstance(res, tuple) and len(res) == 2 and res[0] == "Err" else None
+            if not (isinstance(e, tuple) and e and e[0] == "struct" and str(e[1]).endswith("EnumError") and e[2].get("value") == v and e[2].get("name") == ename):
+                return f"from_int({v}) = {str(res)[:100]}; {v} is not a declared value and must be rejected with EnumError {{ name: {ename!r}, value: {v} }}"
+    return None
+
+
+def as_int_semantic(F, crate, ai, lpath, expected):
+    for name, val in expected:
+        res = _sem(F, crate).call_fn(ai["path"], [("variant", lpath + "::" + name)])
+        if res != val:
+            return f"{name}.as_int() = {res}, the wowm value is {val}"
+    return None
+
+
+def variants_semantic(F, crate, va, exp_names):
+    res = _sem(F, crate).call_fn(va["path"], [])
+    if hasattr(res, "get"):
+        res = res.get()
+    got = [_vname(x) for x in res] if isinstance(res, (list, tuple)) else None
+    if got != exp_names:
+        return f"variants() = {str(got)[:120]}, expected each enumerator once in declaration order"
+    return None
 
 
 def find_impls(F, lpath):
